@@ -1,3 +1,3 @@
+import Proofs.Hyperslab
 import Proofs.Slice
 import Proofs.SliceTuple
-import Proofs.Hyperslab
